@@ -1,7 +1,12 @@
-// Unit `jose_headers` — serves C11 (+ C05 for the same functions).
+// Unit `jws_decode` — serves C01 (+ C05/C11 for the same functions). Includes the header unit's body so
+// that validate_jws_headers etc. are used through the contracts proved there.
 #![feature(allocator_api)]
+#![feature(sized_hierarchy)]
+#![verifier::allow(undeclared_external_trait)]
 use vstd::prelude::*;
 use std::collections::BTreeMap;
+use std::borrow::Cow;
+use vstd::string::StringSliceAdditionalSpecFns;
 verus! {
 
 // ---- shared std prelude (assumed specifications of core/alloc items vstd does not cover) ----
@@ -744,6 +749,530 @@ pub(crate) fn validate_jws_headers__canary(protected: Option<&JwsHeader>, unprot
 }
 
 
+
+
+
+// ------------------------------------------------------------------------------------------------
+// Dependency boundary (ASSUMED): base64url, JSON, UTF-8, the key's `alg` member, algorithm names
+// ------------------------------------------------------------------------------------------------
+// UTF-8 bytes of a string: vstd's `str::spec_bytes`
+/// base64url (no padding) decoding of a byte string; None = not valid base64url
+pub uninterp spec fn b64url_dec(data: Seq<u8>) -> Option<Seq<u8>>;
+/// JSON deserialisation of a JWS header; None = invalid
+pub uninterp spec fn json_header(data: Seq<u8>) -> Option<JwsHeader>;
+pub uninterp spec fn alg_name(a: JwsAlgorithm) -> Seq<char>;
+pub uninterp spec fn jwk_alg(k: &Jwk) -> Option<Seq<char>>;
+
+#[verifier::external_trait_specification]
+pub trait ExAsRef<T: core::marker::PointeeSized>: core::marker::PointeeSized {
+  type ExternalTraitSpecificationFor: AsRef<T> + core::marker::PointeeSized;
+  fn as_ref(&self) -> &T;
+}
+pub assume_specification<T: ?Sized, A: core::alloc::Allocator>[ <Box<T, A> as AsRef<T>>::as_ref ](b: &Box<T, A>) -> (r: &T)
+  ensures r == &**b;
+pub assume_specification[ <str as AsRef<str>>::as_ref ](s: &str) -> (r: &str) ensures r@ == s@;
+pub assume_specification<'a, 'b, T: core::marker::PointeeSized + AsRef<U>, U: core::marker::PointeeSized>[ <&'a T as AsRef<U>>::as_ref ](s: &'b &'a T) -> (r: &'b U)
+  ensures call_ensures(<T as AsRef<U>>::as_ref, (*s,), r);
+
+#[verifier::external_trait_specification]
+pub trait ExFromStr: Sized {
+  type ExternalTraitSpecificationFor: core::str::FromStr;
+  type Err;
+  fn from_str(s: &str) -> core::result::Result<Self, Self::Err>;
+}
+impl core::str::FromStr for JwsAlgorithm {
+  type Err = Error;
+  #[verifier::external_body]
+  fn from_str(string: &str) -> core::result::Result<Self, Error> { unimplemented!() }
+}
+pub assume_specification<F: core::str::FromStr>[ str::parse::<F> ](s: &str) -> (r: core::result::Result<F, F::Err>)
+  ensures call_ensures(<F as core::str::FromStr>::from_str, (s,), r);
+impl JwsAlgorithm {
+  #[verifier::external_body]
+  pub const fn name(self) -> (r: &'static str) ensures r@ == alg_name(self) { unimplemented!() }
+}
+impl Jwk {
+  #[verifier::external_body]
+  pub fn alg(&self) -> (r: Option<&str>) ensures r is Some <==> jwk_alg(self) is Some, r is Some ==> r->Some_0@ == jwk_alg(self)->Some_0 { unimplemented!() }
+
+  pub fn check_alg(&self, expected: &str) -> (r: Result<()>)
+    ensures r is Ok <==> (jwk_alg(self) is None || jwk_alg(self)->Some_0 == expected@),
+  {
+    match self.alg() {
+      Some(value) if value == expected => Ok(()),
+      Some(_) => Err(Error::InvalidClaim("alg")),
+      None => Ok(()),
+    }
+  }
+  pub fn check_alg__canary(&self, expected: &str) -> (r: Result<()>)
+    ensures r is Ok <==> (jwk_alg(self) is None || jwk_alg(self)->Some_0 == expected@),
+      false,
+  {
+    match self.alg() {
+      Some(value) if value == expected => Ok(()),
+      Some(_) => Err(Error::InvalidClaim("alg")),
+      None => Ok(()),
+    }
+  }
+}
+
+/// `decode_b64(payload: &[u8])` / `decode_b64(signature: &str)`: ASSUMED contract of the base64 wrapper
+#[verifier::external_body]
+pub fn decode_b64_bytes(data: &[u8]) -> (r: Result<Vec<u8>>)
+  ensures r is Ok <==> b64url_dec(data@) is Some, r is Ok ==> r->Ok_0@ == b64url_dec(data@)->Some_0
+{ unimplemented!() }
+#[verifier::external_body]
+pub fn decode_b64_str(data: &str) -> (r: Result<Vec<u8>>)
+  ensures r is Ok <==> b64url_dec(data.spec_bytes()) is Some, r is Ok ==> r->Ok_0@ == b64url_dec(data.spec_bytes())->Some_0
+{ unimplemented!() }
+#[verifier::external_body]
+pub fn decode_b64_json(data: &str) -> (r: Result<JwsHeader>)
+  ensures
+    r is Ok <==> (b64url_dec(data.spec_bytes()) is Some && json_header(b64url_dec(data.spec_bytes())->Some_0) is Some),
+    r is Ok ==> r->Ok_0 == json_header(b64url_dec(data.spec_bytes())->Some_0)->Some_0
+{ unimplemented!() }
+
+pub struct VerificationInput {
+  pub alg: JwsAlgorithm,
+  pub signing_input: Box<[u8]>,
+  pub decoded_signature: Box<[u8]>,
+}
+pub trait JwsVerifier {
+  /// what this verifier accepts; ASSUMED of implementors: `verify` is a function of exactly these four things
+  spec fn accepts(&self, alg: JwsAlgorithm, signing_input: Seq<u8>, signature: Seq<u8>, key: &Jwk) -> bool;
+  fn verify(&self, input: VerificationInput, public_key: &Jwk) -> (r: core::result::Result<(), SignatureVerificationError>)
+    ensures r is Ok <==> self.accepts(input.alg, input.signing_input@, input.decoded_signature@, public_key);
+}
+
+pub struct DecodedJws<'a> {
+  pub protected: JwsHeader,
+  pub unprotected: Option<Box<JwsHeader>>,
+  pub claims: Cow<'a, [u8]>,
+}
+pub enum DecodedHeaders {
+  Protected(JwsHeader),
+  Unprotected(JwsHeader),
+  Both {
+    protected: JwsHeader,
+    unprotected: Box<JwsHeader>,
+  },
+}
+pub struct JwsValidationItem<'a> {
+  pub headers: DecodedHeaders,
+  pub signing_input: Box<[u8]>,
+  pub decoded_signature: Box<[u8]>,
+  pub claims: Cow<'a, [u8]>,
+}
+pub struct JwsSignature<'a> {
+  pub header: Option<JwsHeader>,
+  pub protected: Option<&'a str>,
+  pub signature: &'a str,
+}
+pub struct Decoder;
+
+pub open spec fn cow_bytes(c: Cow<'_, [u8]>) -> Seq<u8> { match c { Cow::Borrowed(b) => b@, Cow::Owned(v) => v@ } }
+pub open spec fn prot(h: DecodedHeaders) -> Option<JwsHeader> {
+  match h { DecodedHeaders::Protected(p) => Some(p), DecodedHeaders::Both { protected, .. } => Some(protected), DecodedHeaders::Unprotected(_) => None }
+}
+pub open spec fn unprot(h: DecodedHeaders) -> Option<JwsHeader> {
+  match h { DecodedHeaders::Unprotected(u) => Some(u), DecodedHeaders::Both { unprotected, .. } => Some(*unprotected), DecodedHeaders::Protected(_) => None }
+}
+
+impl DecodedHeaders {
+  fn new(protected: Option<JwsHeader>, unprotected: Option<JwsHeader>) -> (r: Result<Self>)
+    ensures
+      r is Ok <==> (protected is Some || unprotected is Some),
+      r is Ok ==> prot(r->Ok_0) == protected && unprot(r->Ok_0) == unprotected,
+  {
+    match (protected, unprotected) {
+      (Some(protected), Some(unprotected)) => Ok(Self::Both {
+        protected,
+        unprotected: Box::new(unprotected),
+      }),
+      (Some(protected), None) => Ok(Self::Protected(protected)),
+      (None, Some(unprotected)) => Ok(Self::Unprotected(unprotected)),
+      (None, None) => Err(Error::MissingHeader("no headers were decoded")),
+    }
+  }
+  fn new__canary(protected: Option<JwsHeader>, unprotected: Option<JwsHeader>) -> (r: Result<Self>)
+    ensures
+      r is Ok <==> (protected is Some || unprotected is Some),
+      r is Ok ==> prot(r->Ok_0) == protected && unprot(r->Ok_0) == unprotected,
+      false,
+  {
+    match (protected, unprotected) {
+      (Some(protected), Some(unprotected)) => Ok(Self::Both {
+        protected,
+        unprotected: Box::new(unprotected),
+      }),
+      (Some(protected), None) => Ok(Self::Protected(protected)),
+      (None, Some(unprotected)) => Ok(Self::Unprotected(unprotected)),
+      (None, None) => Err(Error::MissingHeader("no headers were decoded")),
+    }
+  }
+  fn protected_header(&self) -> (r: Option<&JwsHeader>)
+    ensures r is Some <==> prot(*self) is Some, r is Some ==> *r->Some_0 == prot(*self)->Some_0,
+  {
+    match self {
+      DecodedHeaders::Protected(ref header) => Some(header),
+      DecodedHeaders::Both { ref protected, .. } => Some(protected),
+      DecodedHeaders::Unprotected(_) => None,
+    }
+  }
+  fn protected_header__canary(&self) -> (r: Option<&JwsHeader>)
+    ensures r is Some <==> prot(*self) is Some, r is Some ==> *r->Some_0 == prot(*self)->Some_0,
+      false,
+  {
+    match self {
+      DecodedHeaders::Protected(ref header) => Some(header),
+      DecodedHeaders::Both { ref protected, .. } => Some(protected),
+      DecodedHeaders::Unprotected(_) => None,
+    }
+  }
+  fn unprotected_header(&self) -> (r: Option<&JwsHeader>)
+    ensures r is Some <==> unprot(*self) is Some, r is Some ==> *r->Some_0 == unprot(*self)->Some_0,
+  {
+    match self {
+      DecodedHeaders::Unprotected(ref header) => Some(header),
+      DecodedHeaders::Both { ref unprotected, .. } => Some(unprotected.as_ref()),
+      DecodedHeaders::Protected(_) => None,
+    }
+  }
+  fn unprotected_header__canary(&self) -> (r: Option<&JwsHeader>)
+    ensures r is Some <==> unprot(*self) is Some, r is Some ==> *r->Some_0 == unprot(*self)->Some_0,
+      false,
+  {
+    match self {
+      DecodedHeaders::Unprotected(ref header) => Some(header),
+      DecodedHeaders::Both { ref unprotected, .. } => Some(unprotected.as_ref()),
+      DecodedHeaders::Protected(_) => None,
+    }
+  }
+}
+
+impl<'a> JwsValidationItem<'a> {
+  pub fn protected_header(&self) -> (r: Option<&JwsHeader>)
+    ensures r is Some <==> prot(self.headers) is Some, r is Some ==> *r->Some_0 == prot(self.headers)->Some_0,
+  {
+    self.headers.protected_header()
+  }
+  pub fn protected_header__canary(&self) -> (r: Option<&JwsHeader>)
+    ensures r is Some <==> prot(self.headers) is Some, r is Some ==> *r->Some_0 == prot(self.headers)->Some_0,
+      false,
+  {
+    self.headers.protected_header()
+  }
+  pub fn alg(&self) -> (r: Option<JwsAlgorithm>)
+    ensures r == (if prot(self.headers) is Some { prot(self.headers)->Some_0.alg } else { None }),
+  {
+    self.protected_header().and_then(|protected: &JwsHeader| -> (o: Option<JwsAlgorithm>) ensures o == protected.alg { protected.alg() })
+  }
+  pub fn alg__canary(&self) -> (r: Option<JwsAlgorithm>)
+    ensures r == (if prot(self.headers) is Some { prot(self.headers)->Some_0.alg } else { None }),
+      false,
+  {
+    self.protected_header().and_then(|protected: &JwsHeader| -> (o: Option<JwsAlgorithm>) ensures o == protected.alg { protected.alg() })
+  }
+
+  pub fn verify<T>(self, verifier: &T, public_key: &Jwk) -> (r: Result<DecodedJws<'a>>) where
+  T: JwsVerifier,
+    ensures
+      r is Ok ==> {
+        // verification without an alg in the PROTECTED header is rejected; the unprotected header is never consulted
+        &&& prot(self.headers) is Some
+        &&& prot(self.headers)->Some_0.alg is Some
+        // an algorithm pinned on the key equals the header's
+        &&& (jwk_alg(public_key) is None || jwk_alg(public_key)->Some_0 == alg_name(prot(self.headers)->Some_0.alg->Some_0))
+        // the verifier is consulted on exactly the stored signing input and signature, with that algorithm and the caller's key
+        &&& verifier.accepts(prot(self.headers)->Some_0.alg->Some_0, self.signing_input@, self.decoded_signature@, public_key)
+        // what is handed back is what was stored
+        &&& cow_bytes(r->Ok_0.claims) == cow_bytes(self.claims)
+        &&& r->Ok_0.protected == prot(self.headers)->Some_0
+        &&& (r->Ok_0.unprotected is Some <==> unprot(self.headers) is Some)
+        &&& (r->Ok_0.unprotected is Some ==> *r->Ok_0.unprotected->Some_0 == unprot(self.headers)->Some_0)
+      },
+      // fail-closed: every failing condition is an error
+      (prot(self.headers) is None || prot(self.headers)->Some_0.alg is None) ==> r is Err,
+      (prot(self.headers) is Some && prot(self.headers)->Some_0.alg is Some
+        && !verifier.accepts(prot(self.headers)->Some_0.alg->Some_0, self.signing_input@, self.decoded_signature@, public_key)) ==> r is Err,
+  {
+    // Destructure data
+    let JwsValidationItem {
+      headers,
+      claims,
+      signing_input,
+      decoded_signature,
+    } = self;
+    let (protected, unprotected): (JwsHeader, Option<Box<JwsHeader>>) = match headers {
+      DecodedHeaders::Protected(protected) => (protected, None),
+      DecodedHeaders::Both { protected, unprotected } => (protected, Some(unprotected)),
+      DecodedHeaders::Unprotected(_) => return Err(Error::MissingHeader("missing protected header")),
+    };
+
+    // Extract and validate alg from the protected header.
+    let alg: JwsAlgorithm = protected.alg().ok_or(Error::ProtectedHeaderWithoutAlg)?;
+    public_key.check_alg(alg.name())?;
+
+    // Construct verification input
+    let input = VerificationInput {
+      alg,
+      signing_input,
+      decoded_signature,
+    };
+    // Call verifier
+    verifier
+      .verify(input, public_key)
+      .map_err(|x_eta| -> (r_eta: Error) ensures r_eta == Error::SignatureVerificationError(x_eta) { Error::SignatureVerificationError(x_eta) })?;
+
+    Ok(DecodedJws {
+      protected,
+      unprotected,
+      claims,
+    })
+  }
+  pub fn verify__canary<T>(self, verifier: &T, public_key: &Jwk) -> (r: Result<DecodedJws<'a>>) where
+  T: JwsVerifier,
+    ensures
+      r is Ok ==> {
+        // verification without an alg in the PROTECTED header is rejected; the unprotected header is never consulted
+        &&& prot(self.headers) is Some
+        &&& prot(self.headers)->Some_0.alg is Some
+        // an algorithm pinned on the key equals the header's
+        &&& (jwk_alg(public_key) is None || jwk_alg(public_key)->Some_0 == alg_name(prot(self.headers)->Some_0.alg->Some_0))
+        // the verifier is consulted on exactly the stored signing input and signature, with that algorithm and the caller's key
+        &&& verifier.accepts(prot(self.headers)->Some_0.alg->Some_0, self.signing_input@, self.decoded_signature@, public_key)
+        // what is handed back is what was stored
+        &&& cow_bytes(r->Ok_0.claims) == cow_bytes(self.claims)
+        &&& r->Ok_0.protected == prot(self.headers)->Some_0
+        &&& (r->Ok_0.unprotected is Some <==> unprot(self.headers) is Some)
+        &&& (r->Ok_0.unprotected is Some ==> *r->Ok_0.unprotected->Some_0 == unprot(self.headers)->Some_0)
+      },
+      // fail-closed: every failing condition is an error
+      (prot(self.headers) is None || prot(self.headers)->Some_0.alg is None) ==> r is Err,
+      (prot(self.headers) is Some && prot(self.headers)->Some_0.alg is Some
+        && !verifier.accepts(prot(self.headers)->Some_0.alg->Some_0, self.signing_input@, self.decoded_signature@, public_key)) ==> r is Err,
+      false,
+  {
+    // Destructure data
+    let JwsValidationItem {
+      headers,
+      claims,
+      signing_input,
+      decoded_signature,
+    } = self;
+    let (protected, unprotected): (JwsHeader, Option<Box<JwsHeader>>) = match headers {
+      DecodedHeaders::Protected(protected) => (protected, None),
+      DecodedHeaders::Both { protected, unprotected } => (protected, Some(unprotected)),
+      DecodedHeaders::Unprotected(_) => return Err(Error::MissingHeader("missing protected header")),
+    };
+
+    // Extract and validate alg from the protected header.
+    let alg: JwsAlgorithm = protected.alg().ok_or(Error::ProtectedHeaderWithoutAlg)?;
+    public_key.check_alg(alg.name())?;
+
+    // Construct verification input
+    let input = VerificationInput {
+      alg,
+      signing_input,
+      decoded_signature,
+    };
+    // Call verifier
+    verifier
+      .verify(input, public_key)
+      .map_err(|x_eta| -> (r_eta: Error) ensures r_eta == Error::SignatureVerificationError(x_eta) { Error::SignatureVerificationError(x_eta) })?;
+
+    Ok(DecodedJws {
+      protected,
+      unprotected,
+      claims,
+    })
+  }
+}
+
+// ------------------------------- message construction and payload selection -------------------------------
+pub(crate) fn create_message(header: &[u8], claims: &[u8]) -> (r: Vec<u8>)
+  requires header@.len() + 1 + claims@.len() <= usize::MAX,
+  ensures r@ == header@ + seq![0x2Eu8] + claims@,
+{
+  let capacity: usize = header.len() + 1 + claims.len();
+  let mut message: Vec<u8> = Vec::with_capacity(capacity);
+
+  message.extend(header);
+  message.push(b'.');
+  message.extend(claims);
+  message
+}
+pub(crate) fn create_message__canary(header: &[u8], claims: &[u8]) -> (r: Vec<u8>)
+  requires header@.len() + 1 + claims@.len() <= usize::MAX,
+  ensures r@ == header@ + seq![0x2Eu8] + claims@,
+    false,
+{
+  let capacity: usize = header.len() + 1 + claims.len();
+  let mut message: Vec<u8> = Vec::with_capacity(capacity);
+
+  message.extend(header);
+  message.push(b'.');
+  message.extend(claims);
+  message
+}
+
+/// ASSUMED contract of jwu::filter_non_empty_bytes at the instantiation T = Option<&[u8]>, U = [u8]
+/// (the generic `Into`/`AsRef` plumbing of the real function is not within the verifier's reach)
+#[verifier::external_body]
+pub fn filter_non_empty_bytes<'a>(value: Option<&'a [u8]>) -> (r: Option<&'a [u8]>)
+  ensures r == (if value is Some && value->Some_0@.len() > 0 { value } else { None })
+{ unimplemented!() }
+
+impl Decoder {
+  fn expand_payload<'b>(
+  detached_payload: Option<&'b [u8]>,
+  parsed_payload: Option<&'b [u8]>,
+  ) -> (r: Result<&'b [u8]>)
+    ensures
+      // exactly one payload source: the detached one, or a non-empty embedded one
+      r is Ok <==> ((detached_payload is Some) != (parsed_payload is Some && parsed_payload->Some_0@.len() > 0)),
+      r is Ok && detached_payload is Some ==> r->Ok_0@ == detached_payload->Some_0@,
+      r is Ok && detached_payload is None ==> r->Ok_0@ == parsed_payload->Some_0@,
+  {
+    match (filter_non_empty_bytes(parsed_payload), detached_payload) {
+      (Some(payload), _) => Ok(payload),
+      (None, Some(payload)) => Ok(payload),
+      (None, None) => Err(Error::InvalidContent("missing payload")),
+    }
+  }
+  fn expand_payload__canary<'b>(
+  detached_payload: Option<&'b [u8]>,
+  parsed_payload: Option<&'b [u8]>,
+  ) -> (r: Result<&'b [u8]>)
+    ensures
+      // exactly one payload source: the detached one, or a non-empty embedded one
+      r is Ok <==> ((detached_payload is Some) != (parsed_payload is Some && parsed_payload->Some_0@.len() > 0)),
+      r is Ok && detached_payload is Some ==> r->Ok_0@ == detached_payload->Some_0@,
+      r is Ok && detached_payload is None ==> r->Ok_0@ == parsed_payload->Some_0@,
+      false,
+  {
+    match (filter_non_empty_bytes(parsed_payload), detached_payload) {
+      (Some(payload), _) => Ok(payload),
+      (None, Some(payload)) => Ok(payload),
+      (None, None) => Err(Error::InvalidContent("missing payload")),
+    }
+  }
+}
+
+/// bytes of the protected segment exactly as received ("" when the member is absent)
+pub open spec fn protected_bytes(sig: JwsSignature<'_>) -> Seq<u8> {
+  if sig.protected is Some { sig.protected->Some_0.spec_bytes() } else { Seq::<u8>::empty() }
+}
+pub open spec fn decoded_protected(sig: JwsSignature<'_>) -> Option<JwsHeader> {
+  if sig.protected is Some { json_header(b64url_dec(sig.protected->Some_0.spec_bytes())->Some_0) } else { None }
+}
+
+impl Decoder {
+  fn decode_signature<'a, 'b>(
+  &self,
+  payload: &'b [u8],
+  jws_signature: JwsSignature<'a>,
+  ) -> (r: Result<JwsValidationItem<'b>>)
+    requires payload@.len() + 1 + protected_bytes(jws_signature).len() <= usize::MAX,
+    ensures
+      r is Ok ==> {
+        let item = r->Ok_0;
+        // the signing input is ASCII(protected segment as received) + '.' + payload as received — no re-serialisation
+        &&& item.signing_input@ == protected_bytes(jws_signature) + seq![0x2Eu8] + payload@
+        // the signature bytes are the base64url decoding of the received signature member
+        &&& b64url_dec(jws_signature.signature.spec_bytes()) is Some
+        &&& item.decoded_signature@ == b64url_dec(jws_signature.signature.spec_bytes())->Some_0
+        // the headers kept are the decoded protected segment and the unprotected member, and they satisfy the C11 policy
+        &&& prot(item.headers) == decoded_protected(jws_signature)
+        &&& unprot(item.headers) == jws_signature.header
+        &&& (jws_signature.protected is Some ==> b64url_dec(jws_signature.protected->Some_0.spec_bytes()) is Some
+               && json_header(b64url_dec(jws_signature.protected->Some_0.spec_bytes())->Some_0) is Some)
+        &&& policy_ok(opt_ref(prot(item.headers)), opt_ref(unprot(item.headers)))
+        // the claims handed on are exactly the signed payload: base64url-decoded unless b64=false in the PROTECTED header
+        &&& (b64_of(opt_ref(prot(item.headers))) == Some(false) ==> cow_bytes(item.claims) == payload@)
+        &&& (b64_of(opt_ref(prot(item.headers))) != Some(false) ==> b64url_dec(payload@) is Some && cow_bytes(item.claims) == b64url_dec(payload@)->Some_0)
+      },
+  {
+    let JwsSignature {
+      header: unprotected_header,
+      protected,
+      signature,
+    } = jws_signature;
+
+    let protected_header: Option<JwsHeader> = protected.map(|x_eta| -> (r_eta: _) requires call_requires(decode_b64_json, (x_eta,)) ensures call_ensures(decode_b64_json, (x_eta,), r_eta) { decode_b64_json(x_eta) }).transpose()?;
+    validate_jws_headers(protected_header.as_ref(), unprotected_header.as_ref())?;
+
+    let protected_bytes: &[u8] = protected.map(|x_eta| -> (r_eta: _) requires call_requires(str::as_bytes, (x_eta,)) ensures call_ensures(str::as_bytes, (x_eta,), r_eta) { str::as_bytes(x_eta) }).unwrap_or_default();
+    let signing_input: Box<[u8]> = create_message(protected_bytes, payload).into();
+    let decoded_signature: Box<[u8]> = decode_b64_str(signature)?.into();
+
+    let claims: Cow<'b, [u8]> = if protected_header.as_ref().and_then(|value: &JwsHeader| -> (o: Option<bool>) ensures o == value.b64 { value.b64() }).unwrap_or(true) {
+      Cow::Owned(decode_b64_bytes(payload)?)
+    } else {
+      Cow::Borrowed(payload)
+    };
+
+    Ok(JwsValidationItem {
+      headers: DecodedHeaders::new(protected_header, unprotected_header)?,
+      signing_input,
+      decoded_signature,
+      claims,
+    })
+  }
+  fn decode_signature__canary<'a, 'b>(
+  &self,
+  payload: &'b [u8],
+  jws_signature: JwsSignature<'a>,
+  ) -> (r: Result<JwsValidationItem<'b>>)
+    requires payload@.len() + 1 + protected_bytes(jws_signature).len() <= usize::MAX,
+    ensures
+      r is Ok ==> {
+        let item = r->Ok_0;
+        // the signing input is ASCII(protected segment as received) + '.' + payload as received — no re-serialisation
+        &&& item.signing_input@ == protected_bytes(jws_signature) + seq![0x2Eu8] + payload@
+        // the signature bytes are the base64url decoding of the received signature member
+        &&& b64url_dec(jws_signature.signature.spec_bytes()) is Some
+        &&& item.decoded_signature@ == b64url_dec(jws_signature.signature.spec_bytes())->Some_0
+        // the headers kept are the decoded protected segment and the unprotected member, and they satisfy the C11 policy
+        &&& prot(item.headers) == decoded_protected(jws_signature)
+        &&& unprot(item.headers) == jws_signature.header
+        &&& (jws_signature.protected is Some ==> b64url_dec(jws_signature.protected->Some_0.spec_bytes()) is Some
+               && json_header(b64url_dec(jws_signature.protected->Some_0.spec_bytes())->Some_0) is Some)
+        &&& policy_ok(opt_ref(prot(item.headers)), opt_ref(unprot(item.headers)))
+        // the claims handed on are exactly the signed payload: base64url-decoded unless b64=false in the PROTECTED header
+        &&& (b64_of(opt_ref(prot(item.headers))) == Some(false) ==> cow_bytes(item.claims) == payload@)
+        &&& (b64_of(opt_ref(prot(item.headers))) != Some(false) ==> b64url_dec(payload@) is Some && cow_bytes(item.claims) == b64url_dec(payload@)->Some_0)
+      },
+      false,
+  {
+    let JwsSignature {
+      header: unprotected_header,
+      protected,
+      signature,
+    } = jws_signature;
+
+    let protected_header: Option<JwsHeader> = protected.map(|x_eta| -> (r_eta: _) requires call_requires(decode_b64_json, (x_eta,)) ensures call_ensures(decode_b64_json, (x_eta,), r_eta) { decode_b64_json(x_eta) }).transpose()?;
+    validate_jws_headers(protected_header.as_ref(), unprotected_header.as_ref())?;
+
+    let protected_bytes: &[u8] = protected.map(|x_eta| -> (r_eta: _) requires call_requires(str::as_bytes, (x_eta,)) ensures call_ensures(str::as_bytes, (x_eta,), r_eta) { str::as_bytes(x_eta) }).unwrap_or_default();
+    let signing_input: Box<[u8]> = create_message(protected_bytes, payload).into();
+    let decoded_signature: Box<[u8]> = decode_b64_str(signature)?.into();
+
+    let claims: Cow<'b, [u8]> = if protected_header.as_ref().and_then(|value: &JwsHeader| -> (o: Option<bool>) ensures o == value.b64 { value.b64() }).unwrap_or(true) {
+      Cow::Owned(decode_b64_bytes(payload)?)
+    } else {
+      Cow::Borrowed(payload)
+    };
+
+    Ok(JwsValidationItem {
+      headers: DecodedHeaders::new(protected_header, unprotected_header)?,
+      signing_input,
+      decoded_signature,
+      claims,
+    })
+  }
+}
+pub open spec fn opt_ref(h: Option<JwsHeader>) -> Option<&'static JwsHeader> { if h is Some { Some(&h->Some_0) } else { None } }
 
 } // verus!
 fn main() {}
